@@ -474,6 +474,7 @@ func checkC08(p *Program, r *Report) {
 	if len(sites) == 0 {
 		r.Unk("narrowing conversions", "", "none found in the build scope (the 16-bit step encoder is gone?)")
 	}
+	checkRejectReasons(p, r)
 }
 
 func dedupFuncs(fs []*ssa.Function) []*ssa.Function {
